@@ -399,6 +399,8 @@ def _mk_np24(d, rng_v, maxint, ns, values="random", rng=None, shank_perm=None, f
                 hdr = line[:line.index(")") + 1]
                 line = hdr + "".join(f"({shank_perm[i]}:{c}:{r}:{fl})" for i, (s, c, r, fl) in enumerate(ent)) + "\n"
             g.write(line)
+        # fields other tools add: integer lists with entries of seven and more digits (CatGT time values, dates in notes)
+        g.write("catTVals=0,110884048\nuserNotes=20210802,1234567\n")
     return ap, D
 
 
@@ -471,7 +473,7 @@ def native_end_to_end(rng, rng_v, maxint, ns, window, nshank_assign, stale=False
 
 
 @bounded(PROPERTY, "native_end_to_end", bound="real NP2.4 files from the shipped 4-shank meta: all 65536 int16 values x the 9 catalogued range/maxint pairs (quick: 3 pairs) ; random content x "
-         "random assignments of the 384 channels to 1..4 shanks x windows {600, 1200, 30000} x ns not aligned x {fresh output folders, forced re-split over the uncompressed outputs of a different earlier recording} (quick: 4 cases, thorough: 40); split bytes, per-shank reader shape, reconstruction bytes, metadata field for field",
+         "random assignments of the 384 channels to 1..4 shanks x windows {600, 1200, 30000} x ns not aligned x {fresh output folders, forced re-split over the uncompressed outputs of a different earlier recording} (quick: 4 cases, thorough: 40); split bytes, per-shank reader shape, reconstruction bytes, metadata field for field (incl. integer lists with 7..9 digit entries); two sets of shank folders for one probe name",
          clause="end-to-end bytes and metadata on real files, incl. the channel-subset string round trip")
 def b_native(B):
     gains = GAINS[:3] if B.tier == "quick" else GAINS
@@ -495,6 +497,38 @@ def b_native(B):
     for W, N_ in ((1200, 1824), (1200, 2448), (1200, 2400), (600, 700)) if B.tier == "quick" else [(W, N_) for W in (600, 1200) for N_ in (W, W + 24, 2 * W - 576, 2 * W - 576 - 48, 3 * W - 2 * 576, 3 * W - 2 * 576 - 240, 700, 1999)]:
         bad = native_end_to_end(rng, *GAINS[1], N_ + int(rng.integers(1, 900)), W, None, nsamples=N_)
         B.case(("e2e_first_nsamples", W, N_), not bad, detail=bad[:4], inputs={"kind": "e2e_nsamples", "window": W, "nsamples": N_})
+    # two sets of shank folders for the same probe name (an earlier version split with init_params(extra=...) and the final one): the reassembled
+    # file must not mix them - either the reconstruction is refused, or the result is byte for byte one of the two recordings
+    d = tempfile.mkdtemp(prefix="c03_")
+    try:
+        ap, D_old = _mk_np24(d, *GAINS[0], 1500, rng=rng)
+        c0 = neuropixel.NP2Converter(ap, post_check=False, compress=False)
+        c0.init_params(nwindow=1200, extra="_old")
+        c0.process()
+        c0.sr.close()
+        D_new = rng.integers(-32768, 32768, size=D_old.shape, dtype=np.int16)
+        D_new.tofile(ap)
+        c1 = neuropixel.NP2Converter(ap, post_check=False, compress=False)
+        c1.init_params(nwindow=1200)
+        c1.process()
+        c1.sr.close()
+        os.rename(ap, ap + ".orig")
+        os.rename(ap[:-3] + "meta", ap[:-3] + "meta.orig")
+        rec2 = neuropixel.NP2Reconstructor(os.path.dirname(os.path.dirname(ap)), "probe00", compress=False)
+        try:
+            st = rec2.process()
+        except Exception as e:
+            st = repr(e)[:80]
+        okx = True
+        if st == 1:
+            got = np.fromfile(rec2.save_file, dtype=np.int16)
+            okx = np.array_equal(got, D_new.ravel()) or np.array_equal(got, D_old.ravel())
+        for inf in (getattr(rec2, "shank_info", None) or {}).values():
+            if "sr" in inf:
+                inf["sr"].close()
+        B.case("two_sets_of_shank_folders_not_mixed", bool(okx), detail={"status": st, "reassembled": "a mixture of the two recordings" if not okx else "ok"}, inputs={"kind": "ambiguous_folders"})
+    finally:
+        shutil.rmtree(d, ignore_errors=True)
     # savedChans subset string <-> channel list
     rec = neuropixel.NP2Reconstructor.__new__(neuropixel.NP2Reconstructor)
     ok = True
@@ -528,3 +562,4 @@ def b_native(B):
 # ----------------------------------------------------------------------------- contracts of dependencies this property rests on (re-checked here)
 from pyvc.api import depends  # noqa: E402
 depends(PROPERTY, "C17", ["firstlast"])      # generator contract + nwin == count, used by the window-loop harnesses
+depends(PROPERTY, "C09", ["write_meta_data_lists"])      # metadata field for field: integer lists are written back in the form the parser reads as the same list
